@@ -53,7 +53,10 @@ type Case struct {
 	Sched      []string        `json:"sched"`
 	Cut        int             `json:"cut"`
 	Procs      []int           `json:"procs"` // kind "big": decoder counts to compare
-	Slow       []int64         `json:"slow"`  // jitter mode: [class byte ('r','w','s' or 0), worker index, microseconds]
+	GoMaxProcs int             `json:"gomaxprocs"`
+	SlowMS     int             `json:"slowms"`    // kind "big": the filter sleeps this long ...
+	SlowEvery  int             `json:"slowevery"` // ... once every so many objects
+	Slow       []int64         `json:"slow"`      // jitter mode: [class byte ('r','w','s' or 0), worker index, microseconds]
 	Weights    map[string]int  `json:"weights"`
 	Wit        []WitStep       `json:"wit"`      // kind "witness": steps of a TLC counterexample of a deviating Model
 	Attempts   int             `json:"attempts"` // how often to try to follow it (select outcomes are random) // schedule bias of random walks: weight per goroutine class r|w|s|c
@@ -707,14 +710,21 @@ func readerFor(data []byte, variant int) io.Reader {
 // positions.  The Judge compares every count with the single-decoder scan and with the number of objects the file holds.
 func runBig(c Case) M {
 	fi := pbfmini.Build(c.Cfg.Cfg, c.Variant)
+	if c.GoMaxProcs > 0 { // few OS threads: decoders, reader and consumer take turns on the same P
+		defer runtime.GOMAXPROCS(runtime.GOMAXPROCS(c.GoMaxProcs))
+	}
 	scans := []M{}
 	for _, n := range c.Procs {
 		s := osmpbf.New(context.Background(), readerFor(fi.Data, c.Variant/2), n)
 		if c.Variant%2 == 1 {
 			// an installed filter that accepts everything changes nothing, however slow it is
 			s.FilterNode = func(nd *osm.Node) bool {
-				if (int64(nd.ID)-fi.FirstID[0])%97 == 0 {
+				k := int64(nd.ID) - fi.FirstID[0]
+				if k%97 == 0 {
 					time.Sleep(300 * time.Microsecond)
+				}
+				if c.SlowMS > 0 && k%int64(c.SlowEvery) == int64(c.SlowEvery)/2 {
+					time.Sleep(time.Duration(c.SlowMS) * time.Millisecond) // one decoder held up inside a block
 				}
 				return true
 			}
